@@ -9,16 +9,17 @@ CONSTANTS MaxBlk,     \* exploration bound on block ids (pruning + appending let
           Exts,       \* extension lists TLC attaches (must be {<<>>} iff BitmapSize = 0)
           Filters,    \* extension filters queried
           Limits,     \* limits used when opening sessions
-          Tails       \* tails used for pruning
+          Tails,      \* tails used for pruning
+          Depth       \* > 0: simulation mode, behaviours of this many actions are printed (MBT)
 
-VARIABLE act
+VARIABLES act, hist
 
 ExtsNone  == {<<>>}
-ExtsSmall == {<<1>>, <<33, 2>>, <<0>>}
+ExtsSmall == {<<1>>, <<33, 2>>}
 
-MCInit == Init /\ act = [op |-> "init"]
+MCInit == Init /\ act = [op |-> "init"] /\ hist = <<>>
 
-MCNext ==
+MCStep ==
   \/ \E l \in Limits : OpenWriter(l)  /\ act' = [op |-> "openWriter", limit |-> l]
   \/ \E l \in Limits : OpenDeleter(l) /\ act' = [op |-> "openDeleter", limit |-> l]
   \/ Close /\ act' = [op |-> "close"]
@@ -32,7 +33,19 @@ MCNext ==
   \/ DFinish /\ act' = [op |-> "finish"]
   \/ \E t \in Tails : Prune(t) /\ act' = [op |-> "prune", tail |-> t]
 
-MCSpec == MCInit /\ [][MCNext]_<<vars, act>>
+MCNext == MCStep /\ hist' = IF Depth = 0 THEN hist ELSE Append(hist, act')
+MCSpec == MCInit /\ [][MCNext]_<<vars, act, hist>>
+
+(* ACTION_CONSTRAINT of the simulation config: rejected calls are kept but thinned out so   *)
+(* that random behaviours make progress                                                    *)
+SimBias == /\ (act'.op \in {"append", "pop"} /\ ~act'.ok) => (act'.id <= 1 /\ act.op # act'.op)
+           /\ act'.op = "close" => act.op \notin {"openWriter", "openDeleter", "close"}
+           /\ act'.op = "finish" => act.op # "finish"
+
+(* CONSTRAINT of the simulation config: print each behaviour of Depth actions once *)
+Emit == IF Depth > 0 /\ Len(hist) = Depth
+        THEN PrintT(<<"MBT", ToJson([bitmap |-> BitmapSize, acts |-> hist])>>)
+        ELSE TRUE
 
 (* blocks no descriptor refers to (left behind by trimming) are never read again *)
 Referenced == {db.meta[i].id : i \in 1..Len(db.meta)}
